@@ -319,6 +319,16 @@ class Subject:
         self.eff_steps = 0
         self.was_done = False
         self.done_snapshot = None
+        # C09: the assembler's preloads of the data segment leave the data-cache counters (and the
+        # cycle counter) untouched
+        if "C09" in self.props and self.isa == "riscv" and self.settings["dc"]["enable"]:
+            st = call_insp(self.sut, self.isa, self.mode, "get_data_cache_stats")
+            cyc = self.sut.state.performance_metrics.cycles
+            if not isinstance(st, dict) or st.get("hits") != "0" or st.get("accesses") != "0" or cyc != 0:
+                self.violate("C09", "assembler-preload-counted", expected={"hits": "0", "accesses": "0", "cycles": 0},
+                             got={"stats": st, "cycles": cyc}, text=text[:300])
+            elif ".data" in text:
+                self.res.probes["load with a data segment: data-cache counters 0/0"] += 1
         # a program with no instructions is done immediately
         try:
             if not self.sut.has_instructions() and not self.sut.is_done():
